@@ -659,11 +659,20 @@ func (st *Stack) compactRange(first, last int, expiration *LogExpirationConfig) 
 		return false, err
 	}
 
-	lockFileName = st.listFile + ".lock"
-	lockFile, err = os.OpenFile(lockFileName, os.O_EXCL|os.O_CREATE|os.O_WRONLY, 0644)
+	lockFile, err = os.OpenFile(st.listFile+".lock", os.O_EXCL|os.O_CREATE|os.O_WRONLY, 0644)
 	if err != nil {
+		// We do not hold the lock, so lockFileName stays
+		// unset: the lock belongs to somebody else and must
+		// not be removed on the way out.
+		if !emptyTable {
+			os.Remove(tmpTable)
+		}
+		if os.IsExist(err) {
+			return false, nil
+		}
 		return false, err
 	}
+	lockFileName = st.listFile + ".lock"
 
 	defer lockFile.Close()
 
